@@ -514,6 +514,31 @@ pub fn policy(_cex: &Value) -> Result<String, String> {
         log.push("general encoder rejects a second recipient with the same b64".into());
       }
     }
+    // every ordered pair of effective b64 settings, spelled in every way (absent header, b64 omitted, explicit true / false)
+    {
+      let explicit_true = build(H { alg: true, b64: Some(true), crit: Some(&["b64"]), kid: false });
+      let mut unprot = JwsHeader::new();
+      unprot.set_kid("k");
+      let forms: Vec<(&str, Option<&JwsHeader>, bool)> =
+        vec![("no protected header", None, true), ("b64 omitted", Some(&a), true), ("b64=true", Some(&explicit_true), true), ("b64=false", Some(&b), false)];
+      for (n1, h1, e1) in &forms {
+        for (n2, h2, e2) in &forms {
+          fn mk<'a>(h: Option<&'a JwsHeader>, unprot: &'a JwsHeader) -> Recipient<'a> {
+            match h {
+              Some(h) => Recipient::new().protected(h),
+              None => Recipient::new().unprotected(unprot),
+            }
+          }
+          if let Ok(e) = GeneralJwsEncoder::new(b"payload", mk(*h1, &unprot), false) {
+            let e = e.set_signature(b"s");
+            let got = e.add_recipient(mk(*h2, &unprot)).is_ok();
+            if got != (e1 == e2) {
+              log.push(format!("general encoder: first recipient {n1}, second {n2}: {}", if got { "accepted" } else { "rejected" }));
+            }
+          }
+        }
+      }
+    }
     log
   });
   match r {
